@@ -565,6 +565,103 @@ def _inline_nested(tree: ast.Module, role_names: Set[str]) -> List[str]:
     return log
 
 
+def _is_cm_decorator(d: ast.AST) -> bool:
+    return (isinstance(d, ast.Name) and d.id == "contextmanager") or (isinstance(d, ast.Attribute) and d.attr == "contextmanager")
+
+
+def expand_context_managers(tree: ast.Module, known: Set[str]) -> List[str]:
+    """`with _cm(args) as v: BODY` where `_cm` is a module-level generator decorated with contextlib.contextmanager that the
+    reference tree does not have, with a single `yield` that is a statement of its body (or of a `try` that is a statement of
+    its body) and no `return`: replaced by
+
+        <statements before the yield> ; v = <yielded value> ; BODY ; <statements after the yield>
+
+    (inside the same `try` when the yield was in one).  This is what the with statement does: an exception of BODY is
+    raised at the yield, so the statements after it run only when BODY completes, `finally` / `except` clauses around it
+    apply to BODY."""
+    log: List[str] = []
+    cms: Dict[str, FuncDef] = {}
+    for st in tree.body:
+        if isinstance(st, ast.FunctionDef) and st.name not in known and len(st.decorator_list) == 1 and _is_cm_decorator(st.decorator_list[0]):
+            ys = [n for n in _own_walk(st) if isinstance(n, (ast.Yield, ast.YieldFrom))]
+            if len(ys) != 1 or isinstance(ys[0], ast.YieldFrom) or any(isinstance(n, ast.Return) for n in _own_walk(st)):
+                continue
+            cms[st.name] = st
+    if not cms:
+        return log
+
+    def is_yield_stmt(x: ast.stmt) -> bool:
+        return (isinstance(x, ast.Expr) and isinstance(x.value, ast.Yield)) or (
+            isinstance(x, (ast.Assign, ast.AnnAssign)) and isinstance(x.value, ast.Yield))
+
+    def splice(body: List[ast.stmt], with_body: List[ast.stmt], var: Optional[ast.AST]) -> Optional[List[ast.stmt]]:
+        for i, x in enumerate(body):
+            if is_yield_stmt(x):
+                y = x.value  # type: ignore
+                mid: List[ast.stmt] = []
+                if var is not None:
+                    asg = ast.Assign(targets=[copy.deepcopy(var)], value=y.value if y.value is not None else ast.Constant(value=None), type_comment=None)
+                    ast.copy_location(asg, x)
+                    ast.fix_missing_locations(asg)
+                    mid.append(asg)
+                return body[:i] + mid + with_body + body[i + 1:]
+            if isinstance(x, ast.Try):
+                inner = splice(x.body, with_body, var)
+                if inner is not None:
+                    x.body = inner
+                    return body
+        return None
+
+    serial = 0
+    users: Dict[str, Set[str]] = {}
+    for scope in [n for n in ast.walk(tree) if isinstance(n, ast.FunctionDef) and n.name not in cms]:
+        changed = True
+        while changed:
+            changed = False
+            for w in [n for n in _own_walk(scope, into_lambdas=False) if type(n) is ast.With]:
+                if len(w.items) != 1:
+                    continue
+                c = w.items[0].context_expr
+                if not (isinstance(c, ast.Call) and isinstance(c.func, ast.Name) and c.func.id in cms):
+                    continue
+                fd = cms[c.func.id]
+                binds = _bind(fd, c)
+                if binds is None:
+                    continue
+                serial += 1
+                caller_names: Set[str] = set(_params(scope)) | {n.id for n in ast.walk(scope) if isinstance(n, ast.Name)}
+                mapping = {x: f"{x}__{fd.name.strip('_')}{serial}" for x in sorted(_locals(fd)) if x in caller_names}
+                body = [copy.deepcopy(x) for x in fd.body]
+                if body and isinstance(body[0], ast.Expr) and isinstance(body[0].value, ast.Constant) and isinstance(body[0].value.value, str):
+                    body = body[1:]
+                rn = _Renamer(mapping)
+                body = [rn.visit(x) for x in body]
+                pre: List[ast.stmt] = []
+                for p_, e_ in binds:
+                    asg = ast.Assign(targets=[ast.Name(id=mapping.get(p_, p_), ctx=ast.Store())], value=copy.deepcopy(e_), type_comment=None)
+                    ast.copy_location(asg, c)
+                    ast.fix_missing_locations(asg)
+                    pre.append(asg)
+                new_body = splice(body, list(w.body), w.items[0].optional_vars)
+                if new_body is None:
+                    continue
+                marker_ = ast.Call(func=ast.Name(id="__inline__", ctx=ast.Load()), args=[ast.Constant(value=fd.name)], keywords=[])
+                blk = InlineBlock(items=[ast.withitem(context_expr=marker_, optional_vars=None)], body=pre + new_body, type_comment=None)
+                blk.helper = fd.name
+                ast.copy_location(blk, w)
+                ast.fix_missing_locations(blk)
+                if _replace_stmt(scope, w, blk):
+                    users.setdefault(fd.name, set()).add(scope.name)
+                    changed = True
+                    break
+    for name, us in sorted(users.items()):
+        # the generator stays defined only if something else still mentions it
+        if not any(isinstance(n, ast.Name) and n.id == name for n in ast.walk(tree)):
+            tree.body.remove(cms[name])
+        log.append(f"context manager {name} expanded in {', '.join(sorted(us))}")
+    return log
+
+
 def _deco_kind(fd: FuncDef) -> Optional[str]:
     """'plain' / 'classmethod' / 'staticmethod'; None for any other decorator"""
     if not fd.decorator_list:
